@@ -320,10 +320,112 @@ def through_aux_data(ctx, g):
                         % (tn, r, val), {"type_name": tn})
 
 
+CODEC_NAMES = ["mapping", "sequence", "set", "tuple", "variant", "string", "UUID", "Addr", "Offset", "bool", "uint8_t", "int64_t", "uint64_t", "float", "nosuch"]
+
+
+def codec_tree(rng, depth):
+    """a grammar tree over the names of the registered codecs, with ANY number of parameters at every node (bare `mapping`,
+    `mapping<string>`, `sequence<a,b>`, `uint8_t<string>`, ...): in the grammar whatever the codecs make of it"""
+    nm = rng.choice(CODEC_NAMES)
+    if depth <= 0 or rng.random() < 0.3:
+        return (nm, [])
+    return (nm, [codec_tree(rng, depth - 1) for _ in range(rng.choice([1, 1, 2, 2, 3]))])
+
+
+def fitting_value(g, t):
+    """a value that leads the encoder as deep into the tree as the codecs go"""
+    import uuid as uuidlib
+    nm, subs = t
+    if nm in ("sequence", "set"):
+        v = [fitting_value(g, subs[0])] if subs else [0]
+        if nm == "sequence":
+            return v
+        try:
+            return set(v)
+        except TypeError:
+            return set()
+    if nm == "mapping":
+        try:
+            return {fitting_value(g, subs[0]) if subs else 0: fitting_value(g, subs[1]) if len(subs) > 1 else 0}
+        except TypeError:
+            return {0: 0}
+    if nm == "tuple":
+        return tuple(fitting_value(g, x) for x in subs)
+    if nm == "variant":
+        return g.serialization.Variant(0, fitting_value(g, subs[0])) if subs and hasattr(g.serialization, "Variant") else 0
+    if nm == "string":
+        return "s"
+    if nm == "UUID":
+        return uuidlib.UUID(int=5)
+    if nm == "Offset":
+        return g.Offset(uuidlib.UUID(int=5), 1)
+    if nm == "bool":
+        return True
+    if nm == "float":
+        return 1.5
+    return 1
+
+
+def grammar_names_are_never_malformed(ctx, g, n):
+    """'accepted if and only if generated by the grammar', at every route that takes a type name: a name of the grammar whose codecs
+    cannot be applied (a container with the wrong number of parameters, a scalar given parameters, an unregistered name) may be
+    refused by the CODECS -- EncodeError, DecodeError, UnknownCodecError -- but is not a malformed type name: TypeNameError is for
+    the strings outside the grammar and for nothing else."""
+    import io
+    AuxP = gtirb_from_repo.msg("AuxData")
+    fixed = [("mapping", [("string", [])]), ("mapping", []), ("sequence", []), ("set", []), ("mapping", [("a", []), ("b", []), ("c", [])]),
+             ("sequence", [("string", []), ("string", [])]), ("set", [("UUID", []), ("UUID", [])]),
+             ("tuple", [("sequence", [("int64_t", []), ("int64_t", [])])]), ("sequence", [("mapping", [("string", [])])]),
+             ("mapping", [("string", []), ("set", [])]), ("uint8_t", [("string", [])]), ("tuple", []), ("variant", []),
+             ("sequence", [("sequence", [("sequence", [("set", [("a", []), ("b", [])])])])])]
+    trees = fixed + [codec_tree(ctx.rng, ctx.rng.choice([1, 2, 3, 4])) for _ in range(n)]
+    raw = b"\x01" + b"\0" * 63
+    for t in trees:
+        tn = oracle_print(t)
+        val = fitting_value(g, t)
+
+        def loaded(via_file):
+            if not via_file:
+                p = AuxP()
+                p.type_name, p.data = tn, raw
+                return g.AuxData._from_protobuf(p, g.IR())
+            ir = g.IR()
+            ir.aux_data["t"] = g.AuxData(g.serialization.UnknownData(raw), tn)
+            buf = io.BytesIO()
+            ir.save_protobuf_file(buf)
+            return g.IR.load_protobuf_file(io.BytesIO(buf.getvalue())).aux_data["t"]
+
+        def save_built():
+            ir = g.IR()
+            ir.aux_data["t"] = g.AuxData(val, tn)
+            ir.save_protobuf_file(io.BytesIO())
+        routes = [("serializer.encode", lambda: g.AuxData.serializer.encode(io.BytesIO(), val, tn)),
+                  ("serializer.decode", lambda: g.AuxData.serializer.decode(raw, tn)),
+                  ("serializer.decode from a stream", lambda: g.AuxData.serializer.decode(io.BytesIO(raw), tn)),
+                  ("AuxData._to_protobuf", lambda: g.AuxData(val, tn)._to_protobuf()),
+                  ("IR.save_protobuf_file", save_built),
+                  ("AuxData.data of a table read from a message", lambda: loaded(False).data),
+                  ("AuxData.data of a table read from a loaded file", lambda: loaded(True).data)]
+        for nm, f in routes:
+            ctx.count("grammar_name_route_cases")
+            try:
+                f()
+                got = "accepted"
+            except Exception as e:  # noqa: BLE001
+                got = exc_name(g, e)
+            ctx.count("grammar_name_route_outcome:" + got)
+            if got == "TypeNameError":
+                ctx.add("oracle", "parse-differs-from-grammar", "%s with the type name %r is rejected with TypeNameError; the string IS generated by the grammar (its tree is %s) -- "
+                        "codecs that cannot be applied to it are an encoding matter, not a malformed name" % (nm, tn, _short(t)), {"type_name": tn, "entry_point": nm, "got": got})
+                break
+        ctx.case("grammar-name-routes:%r" % tn, True)
+
+
 def run(ctx):
     g = gtirb_from_repo.load()
     through_entry_points(ctx, g)
     through_aux_data(ctx, g)
+    grammar_names_are_never_malformed(ctx, g, 150 if ctx.quick else 4000)
     cases = []
     maxlen = 7 if ctx.quick else 9
     alphabet = "ab<>,"
